@@ -2,6 +2,7 @@ package digest
 
 // C11 — checksums are the Redis CRC-64 (Jones, reflected, init 0), chunking independent.
 //
+//vf:opt C11 timeout=60000
 //vf:job C11 quick VF_C11_Digest_StepIsJones
 //vf:job C11 quick VF_C11_Digest_StepInjective
 //vf:job C11 quick VF_C11_Digest_Chunking n1=0..2 n2=0..2
